@@ -186,6 +186,19 @@ theorem consistent_bindAll {F : Type} (m : Mode) (ops : FloatOps F) (env : Env)
 
 example : ([(['A'], Expr.integer ['1']), (['B'], Expr.var ['A'] none)].map Prod.fst).Nodup := by decide
 
+/-- the member lookup is by the EXACT key (`Enum.var_value`: `var.symbol.domain_name == var_name`, pinned by the translator): with the
+    members `F.SUB = 0x10`, `F.B = 2`, `F.UB = 3` declared in this order, `F.B.value << 1` folds to 4 (a lookup by suffix would take
+    `SUB` and give 32) and `F.UB.value * 10 + F.SUB.value` to 46 — on both sides. -/
+example :
+    let env : Env := ⟨[(['F','.','S','U','B'], .integer ['0','x','1','0']), (['F','.','B'], .integer ['2']), (['F','.','U','B'], .integer ['3'])], [['F']]⟩
+    let x : Expr := .chain ['o','n','_','s','h','i','f','t','_','b','i','t','w','i','s','e'] (.value ['F'] ['F','.','B'] none) [(['<','<'], .integer ['1'])]
+    let y : Expr := .chain ['o','n','_','s','u','m']
+      (.chain ['o','n','_','t','e','r','m'] (.value ['F'] ['F','.','U','B'] none) [(['*'], .integer ['1','0'])]) [(['+'], .value ['F'] ['F','.','S','U','B'] none)]
+    let venv := bindAll .py freeOps env.known [] env.members
+    execImpl freeOps env 9 x = .ok (.int 4) ∧ evalPy .py freeOps env.known venv (toPy x) = .ok (.int 4)
+    ∧ execImpl freeOps env 9 y = .ok (.int 46) ∧ evalPy .py freeOps env.known venv (toPy y) = .ok (.int 46) := by
+  decide
+
 /-! ## the two boundaries that are left -/
 
 /-- "CPython has a value ⇒ the folder has that value or refuses", with the region of `m` cut out -/
